@@ -1,11 +1,318 @@
-(* C18 -- property theorems (statements only; proofs live in Bvs*.v). *)
-From Coq Require Import List NArith ZArith Bool.
-From Gatery Require Import Bits BvsDefs BvsSpec BvsLeaf BvsWords BvsCopy BvsAbs BvsOps.
+(* C18 -- "The four-state bit-vector container behaves like a plain array of bits".
+   Property theorems: statements only; every proof is `exact <lemma>` with the lemma proved in
+   Bvs*.v.  Model: BvsDefs.v (word level, follows the C++), specification: BvsSpec.v (list bool).
+
+   Reading guide: [abs s] = the planes of s as lists of bits 0..size-1;  [wf] = representation
+   invariant (ceil(size/64) words per plane, all < 2^64);  [clean] = bits >= size are zero.
+   Every mutator equation has the form  abs (op s ..) = splice-based spec (abs s) ..  for ALL
+   sizes, offsets, lengths and contents, under exactly the stated in-bounds precondition, so it
+   also says that no other bit of any plane changes. *)
+From Coq Require Import List NArith ZArith Bool Ascii String.
+From Gatery Require Import Bits BvsDefs BvsSpec BvsLeaf BvsWords BvsCopy BvsAbs BvsOps BvsEq
+     BvsQuery BvsCmp BvsMerge BvsBig BvsSeq BvsText.
 Import ListNotations.
 Local Open Scope N_scope.
 
+(* ---------------- BitManipulation.h leaves ---------------- *)
+Theorem C18_bitMaskRange : forall start count i,
+  N.testbit (bitMaskRange start count) i = (i <? 64) && ((start <=? i) && (i - start <? count)).
+Proof. exact tb_bitMaskRange. Qed.
+Print Assumptions C18_bitMaskRange.
+
+Theorem C18_bitMaskRange_value : forall start count,
+  start + count <= 64 -> bitMaskRange start count = (2 ^ count - 1) * 2 ^ start.
+Proof. exact bitMaskRange_value. Qed.
+Print Assumptions C18_bitMaskRange_value.
+Example ex_bitMaskRange : bitMaskRange 60 4 = 0xF000000000000000 /\ bitMaskRange 0 64 = N.ones 64 /\ bitMaskRange 3 0 = 0.
+Proof. repeat split. Qed.
+
+Theorem C18_bitfieldExtract : forall a start count i,
+  start < 256 -> count < 256 ->
+  N.testbit (bitfieldExtract a start count) i = (i <? 64) && (i <? count) && N.testbit a (i + start).
+Proof. exact tb_bitfieldExtract. Qed.
+Print Assumptions C18_bitfieldExtract.
+
+Theorem C18_bitfieldInsert : forall a start count v i,
+  lt64 a ->
+  N.testbit (bitfieldInsert a start count v) i
+  = if (i <? 64) && (start <=? i) && (i - start <? count) then N.testbit v (i - start) else N.testbit a i.
+Proof. exact tb_bitfieldInsert. Qed.
+Print Assumptions C18_bitfieldInsert.
+Example ex_bitfield : bitfieldInsert 0xFFFF 4 8 0xA5 = 0xFA5F /\ bitfieldExtract 0xFA5F 4 8 = 0xA5.
+Proof. split; reflexivity. Qed.
+
+(* ---------------- a non-trivial well-formed state for the examples ---------------- *)
+Definition ex_s : bvs := insertW (setRange (resize (mk_empty 2) 130) DEFINED 0 130 true) VALUE 60 10 1023.
+Example ex_s_wf : wf ex_s /\ clean ex_s /\ bsize ex_s = 130 /\ length (planes ex_s) = 2%nat.
+Proof.
+  assert (W0 : wf (resize (mk_empty 2) 130)) by (apply wf_resize; apply (good_empty 2)).
+  assert (C0 : clean (resize (mk_empty 2) 130)) by (apply clean_resize; apply (good_empty 2)).
+  repeat split.
+  - apply wf_insertW, wf_setRange, W0.
+  - apply clean_insertW; [apply wf_setRange, W0 | apply clean_setRange; [exact W0 | exact C0 | vm_compute; discriminate]
+                          | vm_compute; discriminate | vm_compute; discriminate].
+Qed.
+(* it really straddles the 63/64 word border *)
+Example ex_s_bits : extractW ex_s VALUE 58 8 = 0xFC /\ plane ex_s VALUE = [0xF000000000000000; 0x3F; 0].
+Proof. split; vm_compute; reflexivity. Qed.
+
+(* ---------------- resize ---------------- *)
+Theorem C18_resize : forall s n, wf s -> clean s -> abs (resize s n) = resize_spec (abs s) n.
+Proof. exact abs_resize. Qed.
+Print Assumptions C18_resize.
+
+Theorem C18_resize_establishes_invariant : forall s n, wf s -> wf (resize s n) /\ clean (resize s n).
+Proof. exact (fun s n H => conj (wf_resize s n H) (clean_resize s n H)). Qed.
+Print Assumptions C18_resize_establishes_invariant.
+
+Theorem C18_resize_keeps_prefix : forall s n, wf s ->
+  map (firstn (N.to_nat (N.min n (bsize s)))) (abs (resize s n))
+  = map (firstn (N.to_nat (N.min n (bsize s)))) (abs s).
+Proof. exact abs_resize_prefix. Qed.
+Print Assumptions C18_resize_keeps_prefix.
+
+(* ---------------- single bits ---------------- *)
+Theorem C18_get : forall s p i,
+  (p < length (planes s))%nat -> i < bsize s -> get s p i = get_spec (abs s) p i.
+Proof. exact get_abs. Qed.
+Print Assumptions C18_get.
+
+Theorem C18_set : forall s p i b, wf s -> i < bsize s -> abs (setb s p i b) = setb_spec (abs s) p i b.
+Proof. exact abs_setb. Qed.
+Print Assumptions C18_set.
+
+Theorem C18_set1 : forall s p i, wf s -> i < bsize s -> abs (set1 s p i) = setb_spec (abs s) p i true.
+Proof. exact abs_set1. Qed.
+Print Assumptions C18_set1.
+
+Theorem C18_clear : forall s p i, wf s -> i < bsize s -> abs (clear1 s p i) = setb_spec (abs s) p i false.
+Proof. exact abs_clear1. Qed.
+Print Assumptions C18_clear.
+
+Theorem C18_toggle : forall s p i, wf s -> i < bsize s -> abs (toggle s p i) = toggle_spec (abs s) p i.
+Proof. exact abs_toggle. Qed.
+Print Assumptions C18_toggle.
+
+(* ---------------- setRange / clearRange ---------------- *)
 Theorem C18_setRange : forall s p off size b,
   wf s -> off + size <= bsize s ->
   abs (setRange s p off size b) = setRange_spec (abs s) p off size b.
 Proof. exact abs_setRange. Qed.
 Print Assumptions C18_setRange.
+Example ex_setRange : wf ex_s /\ 61 + 69 <= bsize ex_s.   (* head + body + tail, ends at size *)
+Proof. split; [apply ex_s_wf | vm_compute; discriminate]. Qed.
+
+(* ---------------- insert / extract of <= 64 bits at any offset ---------------- *)
+Theorem C18_insert_word : forall s p off size v,
+  wf s -> size <= 64 -> off + size <= bsize s ->
+  abs (insertW s p off size v) = insertW_spec (abs s) p off size v.
+Proof. exact abs_insertW. Qed.
+Print Assumptions C18_insert_word.
+
+Theorem C18_extract_word : forall s p off size,
+  wf s -> (p < length (planes s))%nat -> size <= 64 -> off + size <= bsize s ->
+  extractW s p off size = extractW_spec (abs s) p off size.
+Proof. exact extractW_abs. Qed.
+Print Assumptions C18_extract_word.
+Example ex_word : wf ex_s /\ (VALUE < length (planes ex_s))%nat /\ 64 <= 64 /\ 63 + 64 <= bsize ex_s.
+Proof. repeat split; try apply ex_s_wf; vm_compute; try discriminate; auto. Qed.
+
+Theorem C18_insertNonStraddling : forall s p off size v,
+  wf s -> off mod 64 + size <= 64 -> off + size <= bsize s ->
+  abs (insertNS s p off size v) = insertW_spec (abs s) p off size v.
+Proof. exact abs_insertNS. Qed.
+Print Assumptions C18_insertNonStraddling.
+
+Theorem C18_extractNonStraddling : forall s p off size,
+  wf s -> (p < length (planes s))%nat -> off mod 64 + size <= 64 -> off + size <= bsize s ->
+  extractNS s p off size = extractW_spec (abs s) p off size.
+Proof. exact extractNS_abs. Qed.
+Print Assumptions C18_extractNonStraddling.
+
+(* ---------------- copyRange / extract(state) / insert(state) / append / == ---------------- *)
+Theorem C18_copyRange : forall d dOff s sOff size,
+  wf d -> wf s -> dOff + size <= bsize d -> sOff + size <= bsize s ->
+  abs (copyRange d dOff s sOff size) = copyRange_spec (abs d) dOff (abs s) sOff size.
+Proof. exact abs_copyRange. Qed.
+Print Assumptions C18_copyRange.
+Example ex_copyRange : wf ex_s /\ 1 + 129 <= bsize ex_s /\ 0 + 129 <= bsize ex_s.
+Proof. repeat split; try apply ex_s_wf; vm_compute; discriminate. Qed.
+
+Theorem C18_extract_state : forall s start size,
+  wf s -> start + size <= bsize s ->
+  abs (extractS s start size) = extractS_spec (abs s) start size.
+Proof. exact abs_extractS. Qed.
+Print Assumptions C18_extract_state.
+
+Theorem C18_insert_state : forall d st off size,
+  wf d -> wf st -> bsize st + off <= bsize d -> size <= bsize st ->
+  abs (insertS d st off size) = insertS_spec (abs d) (abs st) off size.
+Proof. exact abs_insertS. Qed.
+Print Assumptions C18_insert_state.
+
+Theorem C18_append : forall d s, wf d -> wf s -> abs (append d s) = append_spec (abs d) (abs s).
+Proof. exact abs_append. Qed.
+Print Assumptions C18_append.
+
+Theorem C18_equal : forall a b,
+  wf a -> wf b -> length (planes a) = length (planes b) -> planes a <> [] ->
+  eqS a b = eq_spec (abs a) (abs b).
+Proof. exact eqS_abs. Qed.
+Print Assumptions C18_equal.
+Example ex_equal : eqS ex_s (extractS (append ex_s ex_s) 130 130) = true.
+Proof. vm_compute. reflexivity. Qed.
+
+(* ---------------- range queries ---------------- *)
+Theorem C18_compareRange_default : forall d dOff s sOff size,
+  wf d -> wf s -> (DEFINED < length (planes d))%nat -> (DEFINED < length (planes s))%nat ->
+  dOff + size <= bsize d -> sOff + size <= bsize s ->
+  compareRangeD d dOff s sOff size = compareRangeD_spec (abs d) dOff (abs s) sOff size.
+Proof. exact compareRangeD_abs. Qed.
+Print Assumptions C18_compareRange_default.
+
+Theorem C18_compareRange_extended : forall d dOff s sOff size,
+  wf d -> wf s -> (HIGH_IMPEDANCE < length (planes d))%nat -> (HIGH_IMPEDANCE < length (planes s))%nat ->
+  dOff + size <= bsize d -> sOff + size <= bsize s ->
+  compareRangeX d dOff s sOff size = compareRangeX_spec (abs d) dOff (abs s) sOff size.
+Proof. exact compareRangeX_abs. Qed.
+Print Assumptions C18_compareRange_extended.
+
+Theorem C18_allOne : forall s p start size,
+  wf s -> (p < length (planes s))%nat -> start <= bsize s ->
+  allOne s p start size = allOne_spec (abs s) p start size.
+Proof. exact allOne_abs. Qed.
+Print Assumptions C18_allOne.
+
+Theorem C18_allZero : forall s p start size,
+  wf s -> (p < length (planes s))%nat -> start <= bsize s ->
+  allZero s p start size = allZero_spec (abs s) p start size.
+Proof. exact allZero_abs. Qed.
+Print Assumptions C18_allZero.
+
+Theorem C18_anyDefined : forall s start size,
+  wf s -> (DEFINED < length (planes s))%nat -> start <= bsize s ->
+  anyDefined s start size = anyDefined_spec (abs s) start size.
+Proof. exact anyDefined_abs. Qed.
+Print Assumptions C18_anyDefined.
+
+Theorem C18_compareValues : forall a b sa sb size,
+  (DEFINED < length (planes a))%nat -> (DEFINED < length (planes b))%nat ->
+  sa + size <= bsize a -> sb + size <= bsize b ->
+  compareValues a sa b sb size = compareValues_spec (abs a) sa (abs b) sb size.
+Proof. exact compareValues_abs. Qed.
+Print Assumptions C18_compareValues.
+
+Theorem C18_equalOnDefinedValues : forall a b sa sb size,
+  (DEFINED < length (planes a))%nat -> (DEFINED < length (planes b))%nat ->
+  sa + size <= bsize a -> sb + size <= bsize b ->
+  equalOnDefinedValues a sa b sb size = equalOnDefined_spec (abs a) sa (abs b) sb size.
+Proof. exact equalOnDefined_abs. Qed.
+Print Assumptions C18_equalOnDefinedValues.
+
+Theorem C18_canBeReplacedWith : forall a b sa sb size,
+  (DEFINED < length (planes a))%nat -> (DEFINED < length (planes b))%nat ->
+  sa <= bsize a ->
+  (let n := if size =? size_max then bsize a - sa else size in sa + n <= bsize a /\ sb + n <= bsize b) ->
+  canBeReplacedWith a b sa sb size = canBeReplaced_spec (abs a) (abs b) sa sb size.
+Proof. exact canBeReplaced_abs. Qed.
+Print Assumptions C18_canBeReplacedWith.
+
+Theorem C18_mergeUndefinedSelection : forall dst sd src ss size,
+  wf dst -> clean dst -> wf src ->
+  (DEFINED < length (planes dst))%nat -> (DEFINED < length (planes src))%nat ->
+  sd + size <= bsize dst -> ss + size <= bsize src ->
+  let r := mergeUndefinedSelection dst sd src ss size in
+  wf r /\ clean r /\ bsize r = bsize dst /\ length (planes r) = length (planes dst)
+  /\ abs r = merge_spec (abs dst) sd (abs src) ss size.
+Proof. exact merge_all. Qed.
+Print Assumptions C18_mergeUndefinedSelection.
+
+(* ---------------- BigInt ---------------- *)
+Theorem C18_insertBigInt : forall s off size v,
+  wf s -> off + size <= bsize s -> (size <= 64 \/ off mod 64 = 0) ->
+  abs (insertBigInt s off size v) = insertBigInt_spec (abs s) off size v.
+Proof. exact abs_insertBigInt. Qed.
+Print Assumptions C18_insertBigInt.
+
+Theorem C18_extractBigInt : forall s off size,
+  wf s -> (VALUE < length (planes s))%nat -> off + size <= bsize s -> (size <= 64 \/ off mod 64 = 0) ->
+  extractBigInt s off size = extractBigInt_spec (abs s) off size.
+Proof. exact extractBigInt_abs. Qed.
+Print Assumptions C18_extractBigInt.
+
+Theorem C18_bigint_roundtrip : forall s off n z,
+  wf s -> (VALUE < length (planes s))%nat -> off + n <= bsize s -> (n <= 64 \/ off mod 64 = 0) ->
+  extractBigInt (insertBigInt s off n z) off n = (z mod 2 ^ Z.of_N n)%Z.
+Proof. exact bigint_roundtrip. Qed.
+Print Assumptions C18_bigint_roundtrip.
+Example ex_bigint : extractBigInt (insertBigInt ex_s 64 66 (-5)) 64 66 = (2 ^ 66 - 5)%Z
+                    /\ extractBigInt (insertBigInt ex_s 61 9 (-3)) 61 9 = 509%Z.
+Proof. split; vm_compute; reflexivity. Qed.
+
+(* ---------------- operation sequences ---------------- *)
+Theorem C18_step : forall np nr, (np = 2 \/ np = 4)%nat -> forall o rs,
+  length rs = nr -> inv np rs -> op_ok np nr o (map bsize rs) = true ->
+  inv np (fst (step np o rs)) /\ length (fst (step np o rs)) = nr
+  /\ map bsize (fst (step np o rs)) = op_sizes o (map bsize rs)
+  /\ map abs (fst (step np o rs)) = fst (step_spec np o (map abs rs))
+  /\ snd (step np o rs) = snd (step_spec np o (map abs rs)).
+Proof. exact step_correct. Qed.
+Print Assumptions C18_step.
+
+Theorem C18_sequences : forall np nr, (np = 2 \/ np = 4)%nat -> forall ops rs,
+  length rs = nr -> inv np rs -> ops_ok np nr ops (map bsize rs) = true ->
+  map abs (fst (run np ops rs)) = fst (run_spec np ops (map abs rs))
+  /\ snd (run np ops rs) = snd (run_spec np ops (map abs rs))
+  /\ inv np (fst (run np ops rs)).
+Proof. exact run_correct. Qed.
+Print Assumptions C18_sequences.
+
+(* a straddling multi-operation sequence meets every precondition *)
+Definition ex_ops : list op :=
+  [ OResize 0 130; OResize 1 200;
+    OSetRange 0 1 61 69 true;                 (* head + body + tail, up to the last bit *)
+    OInsertW 0 0 60 10 1023;                  (* straddles words 0/1 *)
+    OCopyRange 1 61 0 3 127;                  (* unaligned, 2 chunks, both sides straddle *)
+    OCopyRange 1 8 0 0 130;                   (* byte path (16 bytes) + 2 remaining bits *)
+    OExtractW 1 0 120 16;                     (* straddles words 1/2 *)
+    OInsertBig 0 64 66 (-5)%Z;                (* chunk path, negative *)
+    OExtractBig 0 64 66;
+    OExtractS 1 0 3 127; OAppend 1 0; OInsertS 1 0 1 0;
+    OCompareRange 1 1 0 0 130; OEq 0 1; OAllOne 0 1 61 size_max; OMerge 1 3 0 1 129;
+    OToggle 1 1 256; OGet 1 1 256 ].
+Example ex_ops_ok : ops_ok 2 2 ex_ops (map bsize [mk_empty 2; mk_empty 2]) = true.
+Proof. vm_compute. reflexivity. Qed.
+Example ex_ops_inv : length [mk_empty 2; mk_empty 2] = 2%nat /\ inv 2 [mk_empty 2; mk_empty 2].
+Proof.
+  split; [reflexivity|]. constructor; [apply (good_empty 2) | constructor; [apply (good_empty 2) | constructor]].
+Qed.
+Example ex_ops_run :
+  snd (run 2 ex_ops [mk_empty 2; mk_empty 2])
+  = snd (run_spec 2 ex_ops (map abs [mk_empty 2; mk_empty 2])).
+Proof. apply (C18_sequences 2 2 (or_introl eq_refl) ex_ops _ (proj1 ex_ops_inv) (proj2 ex_ops_inv) ex_ops_ok). Qed.
+
+(* ---------------- text ---------------- *)
+Theorem C18_print_binary : forall s,
+  wf s -> (DEFINED < length (planes s))%nat -> printState false s = print_spec (abs s).
+Proof. exact printState_bin_abs. Qed.
+Print Assumptions C18_print_binary.
+
+(* ---------------- refuted: where the real container (and hence the faithful model) does NOT
+   behave like the operation on an array of bits; both are confirmed on the real library by
+   harness/C18_bvs.cpp on every run ---------------- *)
+Theorem C18_formatState_hex_ambiguous_refuted :
+  (wf (st_defined 12 416) /\ wf (st_defined 12 2816)
+   /\ abs (st_defined 12 416) <> abs (st_defined 12 2816)
+   /\ formatState (st_defined 12 416) 16 false = formatState (st_defined 12 2816) 16 false)
+  /\ (abs (st_defined 16 171) <> abs (st_defined 16 4113)
+      /\ formatState (st_defined 16 171) 16 true = formatState (st_defined 16 4113) 16 true
+      /\ formatState (st_defined 16 171) 16 true = list_ascii_of_string "1011").
+Proof. exact formatState_hex_ambiguous_refuted. Qed.
+Print Assumptions C18_formatState_hex_ambiguous_refuted.
+
+Theorem C18_parse_octal_22_digits_refuted :
+  parseBitVector (list_ascii_of_string "o0000000000000000000000") = None
+  /\ parseBitVector (list_ascii_of_string "66o1234567012345670123456") = None
+  /\ (exists s, parseBitVector (list_ascii_of_string "o000000000000000000000") = Some s /\ bsize s = 63).
+Proof. exact parse_octal_22_digits_refuted. Qed.
+Print Assumptions C18_parse_octal_22_digits_refuted.
